@@ -122,6 +122,11 @@ func (dt *DateTime) UnmarshalJSON(data []byte) error {
 	if err != nil {
 		return err
 	}
+	if dtn.Time.Nanosecond != 0 {
+		// the text form (and its JSON Schema pattern) has whole seconds only;
+		// a fraction would be written back with nine decimals
+		return errors.New("date time: fractions of a second are not supported")
+	}
 	*dt = DateTime{dtn}
 	return nil
 }
